@@ -396,6 +396,9 @@ def shape_cycle_ctor(item, ob):
     ob.absorb_engine(E)
 
 def run_shape(item, ob):
+    if item[0] == 'pair':
+        from props import equiv
+        equiv.MIR = MIR; return equiv.run_item(item, ob)
     fam, payload = item
     {'cycle_ctor': shape_cycle_ctor, 'range': shape_range, 'comb': shape_comb, 'done': shape_done, 'default': shape_default, 'wrapped': shape_wrapped, 'cycle': shape_cycle}[fam](payload, ob)
 
@@ -423,6 +426,8 @@ def main(tier, seed, t0):
     for n in range(1, 4): items.append(('cycle', (n,)))          # Cycle's invariant: non-empty base (established by the constructor, checked below)
     for n in (0, 2): items.append(('cycle_ctor', (n,)))
     rnd.shuffle(items)
+    from props import equiv
+    equiv.MIR = MIR; equiv.preparse('C11'); items += equiv.items_for('C11')          # lazy map / filter / zip through the real evaluator (props/equiv.py family C11)
     merged, per = pmap(run_shape, items, tier)
     return finish(PROP, tier, seed, merged, t0, th=th,
         kernels=['streams.rs: Range::{empty, next, len}, Permutations/Combinations/Subsequences/CartesianPower::{next, len}, Cycle::{next, pythonic_index_isize}', 'core.rs: trait Stream default methods len, force, pythonic_index_isize, pythonic_slice, reversed; WrappedVec::{len, force}'],
